@@ -73,7 +73,7 @@ Definition vm_substr (s : list N) (start len : Z) : list N :=
   if (n <=? st)%Z then [] else firstn (Z.to_nat (Z.min ln (n - st))) (skipn (Z.to_nat st) s).
 (* STR_CHAR_AT: the byte, or -1 outside 0 <= idx < length *)
 Definition vm_char_at (s : list N) (idx : Z) : Z :=
-  if ((0 <=? idx) && (idx <? Z.of_nat (length s)))%Z then Z.of_N (nth (Z.to_nat idx) s 0%N) else (-1)%Z.
+  if ((0 <=? idx) && (idx <? Z.of_nat (length s)))%Z then Z.of_N (nth (Z.to_nat idx) s 0%N mod 256) else (-1)%Z.
 
 Definition set_nth {A} (n : nat) (v : A) (l : list A) : list A := firstn n l ++ v :: skipn (S n) l.
 
